@@ -50,8 +50,15 @@ def _update_case(job):
     with drive.scratch_dir("c01") as d:
         proj = project.Project(os.path.join(d, "p"), gitfile=(idx % 4 == 3))
         fv = fakevcs.FakeVCS(os.path.join(d, "fake"))
+        remote_mode = False
         if vcs_fault:
             fv.set(tags=tags, tags_branch=tags_branch, status="", remote="", branches="* main 1234abc [origin/main] msg\n", fail=[vcs_fault, "ls_tags_branch"] if vcs_fault == "ls_tags" else [vcs_fault])
+        elif idx % 6 == 2 and scope != "branch":
+            # the tags are on the remote and become visible with the fetch that `update` does by default; half of the time the current branch tracks
+            # nothing (a fresh branch, a detached HEAD in CI) and the remote is known by its URL only
+            remote_mode = True
+            fv.set(tags=[], tags_remote=tags, tags_branch=tags_branch, status="", remote=["", "https://example.com/demo/repo.git\n"][idx // 6 % 2],
+                   branches=["* main 1234abc [origin/main] msg\n", "* (HEAD detached at 1234abc) 1234abc msg\n  main 1234abc msg\n"][idx // 6 % 2])
         else:
             fv.set(tags=tags, tags_branch=tags_branch, status="", remote="", branches="")
         # the scope in force comes from the config file or - in two cases of five - from --tag-scope on the command line over a DIFFERENT configured scope
@@ -67,7 +74,7 @@ def _update_case(job):
             # a configured file that is not valid UTF-8 (a latin-1 byte in an old header): whatever happens, a failing run changes no file
             proj.write("src/pkg.txt", b'# \xa9 2001 ACME\nname = "x"\nversion = "' + cfgver.encode() + b'"\n')
         before = proj.snapshot()
-        args = ["update"] + ([] if vcs_fault else ["--no-fetch"])
+        args = ["update"] + ([] if (vcs_fault or remote_mode) else ["--no-fetch"])
         if dry:
             args.append("--dry")
         if ignore:
